@@ -58,4 +58,10 @@ MUTANTS = [
     ("return-not-checked-with-params", ["C02"], D, "                        full_fn(*args, **kwargs)", "                        full_fn(*args, **kwargs) if len(args) < 2 else None"),
     ("bcast1-binds-in-call", ["C02"], A, "elif cls_dim.broadcastable and obj_size == 1:\n            pass", "elif cls_dim.broadcastable and obj_size == 1:\n            if type(cls_dim) is _NamedDim: single_memo.setdefault(cls_dim.name, 1)"),
     ("var-b-after-p-accumulates", ["C02"], A, "                            if broadcast_shape != prev_shape:\n", "                            if broadcast_shape != prev_shape and len(new_shape) <= len(prev_shape):\n"),
+    ("stale-memos-in-message", ["C13"], D, "                            + shape_str(get_shape_memo())\n                        )\n                        if config.jaxtyping_remove_typechecker_stack:\n                            raise TypeCheckError(msg) from None\n                        else:\n                            raise TypeCheckError(msg) from e\n\n                # Actually", "                            + shape_str(memos)\n                        )\n                        if config.jaxtyping_remove_typechecker_stack:\n                            raise TypeCheckError(msg) from None\n                        else:\n                            raise TypeCheckError(msg) from e\n\n                # Actually"),
+    ("blame-first-param", ["C13"], D, "f\"\\nThe problem arose whilst typechecking parameter '{keep_name}'.\\n\"", "f\"\\nThe problem arose whilst typechecking parameter '{next(iter(param_signature.parameters))}'.\\n\""),
+    ("stage-sentences-swapped", ["C13"], D, '"Type-check error whilst checking the return value "', '"Type-check error whilst checking the parameters "'),
+    ("annotationerror-wrapped", ["C13"], D, "                try:\n                    param_fn(*args, **kwargs)\n                except AnnotationError:\n                    raise\n", "                try:\n                    param_fn(*args, **kwargs)\n"),
+    ("cause-always-kept", ["C13"], D, "                        if config.jaxtyping_remove_typechecker_stack:\n                            raise TypeCheckError(msg) from None\n                        else:\n                            raise TypeCheckError(msg) from e\n\n                return out", "                        raise TypeCheckError(msg) from e\n\n                return out"),
+    ("problem-arg-fresh-context", ["C13"], D, "        try:\n            fn(*args, **kwargs)\n        except Exception as e:\n            keep_value", "        try:\n            push_shape_memo({}); fn(*args, **kwargs); pop_shape_memo()\n        except Exception as e:\n            pop_shape_memo(); keep_value"),
 ]
